@@ -135,7 +135,7 @@ func vcNewGraph() *vcGraph {
 	conf := config.New()
 	conf.FelixHostname = vcLocal
 	conf.BPFEnabled = true
-	conf.Encapsulation = config.Encapsulation{VXLANEnabled: true}
+	conf.Encapsulation = config.Encapsulation{VXLANEnabled: true, VXLANEnabledV6: true}
 	g := &vcGraph{dp: shadowdp.New()}
 	g.es = NewEventSequencer(conf)
 	g.es.Callback = g.dp.OnEvent
